@@ -20,7 +20,10 @@ RULE = ("15 aggregator classes (all but NashMTL) x dtype x shape classes (m=1, n
         "seeds => equal results; (v) the always-on purity / shape / dtype / finiteness contract on every Aggregator call of the run; "
         "non-trivial = a ladder case with >= 2 distinct non-zero rows, or a rejection / history case; distinct = case sha1")
 ASSUMPTIONS = ["homogeneity judged in units of s |w|_1 with tau = 1e-9 (float64) / 1e-4 (float32), CAGrad 1e-6 / 5e-3",
-               "inputs on which a decision threshold of the algorithm is within rounding distance are not judged (guards of C08)"]
+               "inputs on which a decision threshold of the algorithm is within rounding distance are not judged (guards of C08)",
+               "m >= 1 and n >= 1: matrices with zero rows or zero columns are outside the explored domain (observed on the pinned tree, not "
+               "judged: UPGrad / DualProj / CAGrad raise RuntimeError on m x 0, Mean / UPGrad / DualProj / AlignedMTL ZeroDivisionError on 0 x n; "
+               "backward() never builds such a matrix unless a requested input has no element)"]
 NAMES = E.ALL
 N = {"quick": (1500, 1, 900), "thorough": (90000, 40, 54000)}
 LADDER = {"float32": [-12, -9, -6, -3, 3, 6, 9, 12, 15], "float64": [-100, -75, -50, -25, -10, -3, 3, 10, 25, 50, 75, 100]}
